@@ -25,15 +25,18 @@ dR == Raw(<<D("a", "dA"), D("b", "dA"), D("e", "dE"), D("m", "dM"), D("x", "dX")
           <<F("f", "c1", 2, TRUE)>>, <<S("s", "t")>>)
 dR2 == Raw(<<D("a", "dA"), D("i", "dI"), D("k", "dB")>>, <<F("f", "c1", 2, TRUE)>>, <<>>)
 
+dR3 == Raw(<<D("a", "dA"), D("x", "dX")>>, <<F("f", "c1", 2, TRUE)>>, <<>>)
+
 MCCas ==
-  [dirs  |-> [d \in {"dR", "dR2", "dA", "dE", "dM", "dI", "dB"} |->
-                CASE d = "dR" -> dR [] d = "dR2" -> dR2 [] d = "dA" -> dA [] d = "dE" -> dE
+  [dirs  |-> [d \in {"dR", "dR2", "dR3", "dA", "dE", "dM", "dI", "dB"} |->
+                CASE d = "dR" -> dR [] d = "dR2" -> dR2 [] d = "dR3" -> dR3 [] d = "dA" -> dA [] d = "dE" -> dE
                   [] d = "dM" -> dM [] d = "dI" -> dI [] d = "dB" -> dB],
    trees |-> [T \in {"T1"} |-> [root |-> dR2, kids |-> [d \in {"dA", "dE", "dI"} |->
                 CASE d = "dA" -> dA [] d = "dE" -> dE [] d = "dI" -> dI]]],
    blobs |-> [b \in {"c1", "c2"} |-> IF b = "c1" THEN <<7, 8>> ELSE <<9>>]]
 
 MCInvalidNames == {"", ".", "..", "a/b"}
+MCRenameTo == {"n", "e"}
 
 \* one action, rich
 MCActions1 == {"a1"}
@@ -46,4 +49,10 @@ MCActions2 == {"a1", "a2"}
 MCRootOf2  == [a \in MCActions2 |-> IF a = "a1" THEN DirSrc("dR2") ELSE TreeSrc("T1", "ROOT")]
 MCNames2   == {"a", "f", "k"}
 MCPutNodes2 == {CasFile("c1", 2, FALSE)}
+
+\* one action, two modifications in sequence (thorough tier)
+MCRootOf3  == [a \in MCActions1 |-> DirSrc("dR3")]
+MCNames3   == {"a", "f", "n"}
+MCPutNodes3 == {LazyDir(DirSrc("dA"))}
+MCRenameTo3 == {"n"}
 =============================================================================
